@@ -1,7 +1,7 @@
 #!/bin/sh
 # usage: try_seeded.sh <patch.diff> <check-id>...   applies the change to /repo, runs the quick checks, reverts
 set -u
-patch="$1"; shift
+patch="$(readlink -f "$1")"; shift
 git -C /repo status --short | grep -q . && { echo "/repo not clean"; exit 2; }
 git -C /repo apply "$patch" || { echo "patch does not apply"; exit 2; }
 for id in "$@"; do
